@@ -241,4 +241,112 @@ def rule_siblings(ctx):
     return r
 
 
-RULES = [rule_cap, rule_sizewrites, rule_siblings]
+def rule_range(ctx):
+    """Sibling cross-check of *which tensors* the 'largest tensor' figure ranges
+    over in the exact tree and in the compressed tracker."""
+    r = RuleResult("C20-RANGE", "exact and compressed 'largest tensor' range over the same tensors", 1)
+    tc = ctx.p.cls(C.CORE, "ContractionTree")
+    tr = ctx.p.cls(C.SCORING, "CompressedStatsTracker")
+    init = tr.methods.get("__init__")
+    C.require(init is not None, "CompressedStatsTracker.__init__ not found")
+    # does the tracker seed max_size from the input tensors?
+    seeds = None
+    for n in walk_local(init.node):
+        if isinstance(n, ast.For) and "nodes" in ast.unparse(n.iter):
+            for st in ast.walk(n):
+                if isinstance(st, ast.Assign) and C.unparse(st.targets[0]) == "self.max_size":
+                    seeds = st
+    # does the exact figure include leaves?
+    exact_leaves = False
+    for name in ("max_size", "contract_stats"):
+        f = tc.lookup(name)
+        C.require(f is not None, f"ContractionTree.{name} not found")
+        for n in walk_local(f.node):
+            if isinstance(n, ast.For) and "_sizes.add" in " ".join(ast.unparse(b) for b in n.body):
+                if "gen_leaves" in ast.unparse(n.iter) or ".info" in ast.unparse(n.iter):
+                    exact_leaves = True
+    key = ctx.key(init, "C20-RANGE")
+    if (seeds is not None) == exact_leaves:
+        r.ok(key, init.loc, "both figures range over the same set of tensors "
+             f"({'inputs included' if exact_leaves else 'intermediates only'})")
+    else:
+        r.violation(key, C.loc(init, seeds) if seeds is not None else init.loc,
+                    "the compressed tracker seeds its largest-tensor figure with the input "
+                    "tensors while the exact max_size ranges over intermediates only (or vice "
+                    "versa): with nothing truncated the two differ whenever an input is the "
+                    "largest tensor")
+    return r
+
+
+def _unary_step_producers(ctx):
+    """functions whose returned (ssa) path may contain unary single-term steps:
+    they return the ``ssa_path`` of a ContractionProcessor that may have been
+    ``simplify()``-ed (simplify_single_terms appends ``(i,)``)"""
+    m = ctx.p.module(C.BASIC)
+    cp = m.classes.get("ContractionProcessor")
+    C.require(cp is not None, "ContractionProcessor not found")
+    sst = cp.methods.get("simplify_single_terms")
+    unary = sst is not None and any(
+        isinstance(n, ast.Call) and isinstance(n.func, ast.Attribute) and n.func.attr == "append"
+        and n.args and isinstance(n.args[0], ast.Tuple) and len(n.args[0].elts) == 1
+        for n in walk_local(sst.node))
+    if not unary:
+        return {}
+    out = {}
+    for f in m.funcs.values():
+        txt = ast.unparse(f.node)
+        if ".simplify()" in txt and "ssa_path" in txt and "simplify" in f.params:
+            out[f.key] = f
+    return out
+
+
+def rule_steps(ctx):
+    """Last clause of C20 (compressed pathfinders return a complete tree): a path
+    produced by an optimizer that may emit unary simplification steps must not be
+    consumed by a loop that unpacks every step into exactly two ids."""
+    r = RuleResult("C20-STEPS", "consumers of optimizer paths handle unary simplification steps", 1)
+    prods = _unary_step_producers(ctx)
+    C.require(prods, "no producer of unary path steps recognised (simplify_single_terms)")
+    paths = ["cotengra/pathfinders/path_compressed_greedy.py", "cotengra/pathfinders/path_compressed.py",
+             C.CORE, C.INTERFACE] if ctx.tier == "quick" else list(ctx.p.modules)
+    n_cons = 0
+    for path in paths:
+        m = ctx.p.modules.get(path)
+        if m is None:
+            continue
+        for f in m.all_funcs:
+            la = ctx.r.local_assignments(f)
+            for n in walk_local(f.node):
+                if not (isinstance(n, (ast.For, ast.comprehension)) and
+                        isinstance(n.target, ast.Tuple) and len(n.target.elts) == 2):
+                    continue
+                src = n.iter
+                if isinstance(src, ast.Name) and len(la.get(src.id, [])) == 1:
+                    src = la[src.id][0]
+                if not isinstance(src, ast.Call):
+                    continue
+                res = ctx.r.resolve_call(f, src)
+                hit = [c for c in res.callees if c.key in prods]
+                if not hit:
+                    continue
+                n_cons += 1
+                key = ctx.key(f, "C20-STEPS", hit[0].name)
+                kw = {k.arg: k.value for k in src.keywords}
+                kw.update(res.bound)
+                off = isinstance(kw.get("simplify"), ast.Constant) and kw["simplify"].value is False
+                if off:
+                    r.ok(key, C.loc(f, n), "producer called with simplify=False: only pair steps")
+                else:
+                    r.violation(key, C.loc(f, n), f"each step of the path returned by "
+                                f"{hit[0].name}() is unpacked into two ids, but with "
+                                "simplify=True the path contains unary single-term steps (i,): "
+                                "the pathfinder raises for ordinary networks")
+    # consumers that iterate step-wise without fixed arity are fine; report how many
+    # fixed-arity consumers were checked
+    if n_cons == 0:
+        r.ok(f"{C.BASIC}::C20-STEPS::none", C.BASIC, "no fixed-arity consumer of a simplifying "
+             "optimizer's path in scope")
+    return r
+
+
+RULES = [rule_cap, rule_sizewrites, rule_siblings, rule_range, rule_steps]
